@@ -135,7 +135,51 @@ type c06GateExp struct {
 	calls    int  // exporter calls so far
 	timedOut bool // the context of the latest call has been cancelled (per-export timeout fired); the call goes on
 	changed  int
-	gate     chan string // outcome of the export in progress: g+ nil, g- error, gc context.Canceled, gd context.DeadlineExceeded
+	// outcome of the export in progress (g+ nil, g- error, gc context.Canceled, gd context.DeadlineExceeded): every call
+	// has its own one-slot token channel, so handing over a token never blocks the harness (an unbuffered shared gate
+	// deadlocked the harness when the call it had just seen `active` had already taken a token and was leaving)
+	tok   chan string // token slot of the call in progress (nil: no call)
+	given bool        // that call has been given its token (it is leaving)
+	auto  bool        // clean-up: every call returns nil at once
+	open_ map[chan string]bool // calls in progress that have no token yet (more than one only if the code under test overlaps calls)
+}
+
+// open hands `op` to the exporter call in progress. A call that already has its token is leaving: wait (bounded,
+// never verdict-deciding: the script's next observation is taken after quiescence anyway) until it has left, so
+// that "no call in progress" (token is a no-op, as for the model) and "a new call is waiting" are told apart.
+func (e *c06GateExp) open(op string) {
+	deadline := time.Now().Add(2 * time.Second)
+	for {
+		e.mu.Lock()
+		if e.active == 0 || e.tok == nil {
+			e.mu.Unlock()
+			return // nothing to open
+		}
+		if !e.given {
+			e.tok <- op // one-slot buffer, empty: cannot block
+			e.given = true
+			delete(e.open_, e.tok)
+			e.mu.Unlock()
+			return
+		}
+		e.mu.Unlock()
+		if time.Now().After(deadline) {
+			return
+		}
+		time.Sleep(50 * time.Microsecond)
+	}
+}
+
+// release makes the call in progress and every later call return nil at once (clean-up).
+func (e *c06GateExp) release() {
+	e.mu.Lock()
+	e.auto = true
+	for t := range e.open_ {
+		t <- "g+"
+	}
+	e.open_ = nil
+	e.given = true
+	e.mu.Unlock()
 }
 
 func (e *c06GateExp) Export(ctx context.Context, recs []Record) error {
@@ -158,6 +202,17 @@ func (e *c06GateExp) Export(ctx context.Context, recs []Record) error {
 	e.calls++
 	me := e.calls
 	e.timedOut = false
+	tok := make(chan string, 1)
+	e.tok, e.given = tok, false
+	if e.auto {
+		tok <- "g+"
+		e.given = true
+	} else {
+		if e.open_ == nil {
+			e.open_ = map[chan string]bool{}
+		}
+		e.open_[tok] = true
+	}
 	e.mu.Unlock()
 	// this exporter does NOT honour its context: it stays in the call until the script opens the gate, also after
 	// the per-export timeout (timeoutExporter) has cancelled the context; it only records that it saw the cancellation
@@ -165,7 +220,7 @@ func (e *c06GateExp) Export(ctx context.Context, recs []Record) error {
 	var res string
 	for waiting := true; waiting; {
 		select {
-		case res = <-e.gate:
+		case res = <-tok:
 			waiting = false
 		case <-done:
 			done = nil
@@ -178,6 +233,9 @@ func (e *c06GateExp) Export(ctx context.Context, recs []Record) error {
 	}
 	e.mu.Lock()
 	e.active--
+	if e.tok == tok {
+		e.tok = nil
+	}
 	e.mu.Unlock()
 	return c06ExportErr(res)
 }
@@ -295,7 +353,7 @@ func c06Res(err error) string {
 
 // c06RunSched returns the effective configuration and one observation per op.
 func c06RunSched(capQ, batch, buf int, ops []string, win time.Duration) (cfg [3]int, out []string) {
-	exp := &c06GateExp{gate: make(chan string)}
+	exp := &c06GateExp{}
 	// scripts with a `t` op (wait until the per-export timeout has fired) run with a short export timeout
 	expTimeout := time.Hour
 	for _, op := range ops {
@@ -339,12 +397,7 @@ func c06RunSched(capQ, batch, buf int, ops []string, win time.Duration) (cfg [3]
 		}
 		switch {
 		case op == "g+" || op == "g-" || op == "gc" || op == "gd":
-			exp.mu.Lock()
-			in := exp.active > 0
-			exp.mu.Unlock()
-			if in {
-				exp.gate <- op
-			}
+			exp.open(op)
 		case op == "t":
 			// wait until the exporter call in progress has seen its context cancelled by the export timeout (observed,
 			// not slept for); the call itself goes on. No call in progress: nothing to wait for.
@@ -445,16 +498,7 @@ func c06RunSched(capQ, batch, buf int, ops []string, win time.Duration) (cfg [3]
 	if c06ArmPark != nil {
 		c06ArmPark("") // disarm whatever is still armed
 	}
-	done := make(chan struct{})
-	go func() {
-		for {
-			select {
-			case exp.gate <- "g+":
-			case <-done:
-				return
-			}
-		}
-	}()
+	exp.release()
 	fin := make(chan struct{})
 	go func() {
 		_ = bp.Shutdown(context.Background())
@@ -471,7 +515,6 @@ func c06RunSched(capQ, batch, buf int, ops []string, win time.Duration) (cfg [3]
 	case <-time.After(10 * time.Second):
 		out = append(out, "CLEANUP-TIMEOUT")
 	}
-	close(done)
 	return cfg, out
 }
 
